@@ -228,6 +228,16 @@ CLAIMS = {
             "started) and through `octosql plugin install` against a loopback HTTP repository with the manifest in shuffled order. One genuine defect (dashed names) repaired.",
             "Constraint semantics of Masterminds/semver v1.5 as stated in the spec; ^ only for major >= 1. Trusted: directory/HTTP fixtures.",
             "TLA+ spec + TLC-generated configurations replayed on the real plugin manager, CLI start-up and installer", "DESIGN.md 6/C28"),
+    "C27": ("fault_enumeration",
+            "PluginInstall.tla walks `plugin install` / `plugin repository add` one file-system step at a time, with a kill allowed between any two steps and inside the "
+            "long ones (download, unarchive, file write); TLC checks CrashSafe on every state a kill can leave for three prior states, for the repaired (staged) design, "
+            "and as a negative control shows the pinned in-place design violating it. Every kill scenario of the model is executed on the real binary through crash points "
+            "(build tag verif; torn writes at 0 / half / all-but-last byte; truncated downloads and unpacked files) against a loopback HTTP repository; afterwards real "
+            "invocations must start, the configured database must resolve to a complete previous or new version, the plugin's file extension must not be routed to a broken "
+            "plugin, repositories must load and re-running the command must succeed. The observed file-system state is compared with the model's prediction (drift 0). "
+            "Three genuine defects repaired, one residual window recorded.",
+            "Process kill only (no power-loss reordering); a kill inside the third-party unarchiver is emulated by truncating the unpacked files.",
+            "TLA+ spec + TLC model checking of every kill position + exhaustive fault injection on the real binary at the matching crash points", "DESIGN.md 6/C27"),
 }
 
 NA_DEFAULT = "check not built yet (work in progress; will be claimed once its TLA+ spec and conformance harness are committed)"
